@@ -817,7 +817,7 @@ func (p *proxyObject) proxyOwnKeys() ([]Value, bool) {
 		var keySet propNameSet
 		l := toLength(keys.self.getStr("length", nil))
 		for k := int64(0); k < l; k++ {
-			item := keys.self.getIdx(valueInt(k), nil)
+			item := nilSafe(keys.self.getIdx(valueInt(k), nil)) // a hole reads as undefined
 			if _, ok := item.(String); !ok {
 				if _, ok := item.(*Symbol); !ok {
 					panic(p.val.runtime.NewTypeError("%s is not a valid property name", item.String()))
